@@ -84,6 +84,9 @@ pub struct HistCfg {
     pub early_reopen: bool,
     /// per-mille probability that a thread of raindb sleeps for a random 0..600 microseconds at
     /// a point where it does not hold the database mutex (widens race windows; a legal schedule)
+    /// now and then a value of 2.2 .. 3.2 MiB (above twice the iterator's read-sampling period)
+    #[serde(default)]
+    pub giant_values: bool,
     #[serde(default)]
     pub jitter: u64,
     /// restrict the jitter to one hook point ("" = all) and its maximal sleep in microseconds
@@ -557,6 +560,15 @@ struct GenState {
 }
 
 fn gen_value(rng: &mut StdRng, g: &mut GenState, cfg: &HistCfg, memtable: usize) -> ValSpec {
+    if cfg.giant_values && rng.gen_bool(0.04) {
+        let vid = g.next_vid;
+        g.next_vid += 1;
+        return ValSpec {
+            vid,
+            len: rng.gen_range(2_300_000..3_300_000),
+            comp: false,
+        };
+    }
     let class = Universe::pick_size(rng, memtable, cfg.big_values);
     match class {
         SizeClass::Tiny(i) => ValSpec {
